@@ -310,14 +310,19 @@ pub fn inspect(mut f: std::fs::File) -> Got {
         (fl & libc::O_ACCMODE, off, st.st_ino)
     });
     if NO_READ.with(|n| n.get()) {
+        crate::shim::app_phase(|| drop(f));
         return Got { val: Err("handle not read".into()), raw_len: 0, accmode, offset, ino };
     }
-    let bytes = read_all(&mut f).unwrap_or_default();
-    Got { val: Val::decode(&bytes), raw_len: bytes.len(), accmode, offset, ino }
+    // reading the handle (and dropping it) is the application's doing, not the library's
+    crate::shim::app_phase(|| {
+        let bytes = read_all(&mut f).unwrap_or_default();
+        drop(f);
+        Got { val: Val::decode(&bytes), raw_len: bytes.len(), accmode, offset, ino }
+    })
 }
 
 fn peek(f: &mut std::fs::File) -> Result<Val, String> {
-    let b = read_all(f).map_err(|e| e.to_string())?;
+    let b = crate::shim::app_phase(|| read_all(f)).map_err(|e| e.to_string())?;
     Val::decode(&b)
 }
 
